@@ -26,11 +26,12 @@ MOD = "vf.checks.c09"
 RULE = (
     "Engine G: every combination of {logistic, linear, shared_speed_logistic, joint} x 3 (dimension, sources) settings x "
     "{dict of list/tuple/float64-array/float32-array/int-array/int-list/scalar/int-scalar/numpy-scalar, MultiIndex built from "
-    "tuples/arrays/frame} x to_dataframe {None, True, False} on a fixed 3-individual request (unsorted ages with a repeat, "
+    "tuples/arrays/frame or sliced (mask / positions / table filter) out of the index of a larger cohort, so that it carries unused levels, with "
+    "IndividualParameters holding the requested individuals only or the whole cohort} x to_dataframe {None, True, False} on a fixed 3-individual request (unsorted ages with a repeat, "
     "single age, age = tau). Engine H: Hypothesis cases = model kind x dimension 1-4 x source dimension x admissible parameters "
     "(log_g in [-3,3], log_v0 in [-6,-1], g (linear) in [-3,3], deltas in [-3,3], betas in [-1,1], tau_mean in [40,90]) x 1-5 requested "
     "individuals (+0-2 known but not requested) with xi within +-2 (extreme +-5) of the prior mean, tau within 3 std, sources "
-    "in [-3,3] x 1-8 ages each (near tau, far up to 1e4, exactly tau, integer-valued; sorted/reversed/shuffled; repeats) x "
+    "in [-3,3] x 1-8 ages each (near tau, far up to +-1e4, exactly tau, zero, negative, integer-valued; sorted/reversed/shuffled; repeats; tau_mean in [-30,5] for 1 case in 6) x "
     "age container x request form x to_dataframe. All numbers are float32-representable. Non-trivial = >=2 requested individuals, "
     "some individual with unsorted ages containing a repeat, sources present; distinct by case hash. "
     "Parameter updates (both engines): ONE model object receives 1-3 further parameter sets of the same kind/dimension/sources, each "
@@ -63,7 +64,10 @@ ASSUMPTIONS = [
     "In-place parameter updates use the two paths leaspy uses itself: StatefulModel.load_parameters ('Instantiate or update') and "
     "assignment of ModelParameter nodes on model.state under auto_fork(None) + put_population_latent_variables(PRIOR_MODE) "
     "(StatefulModel.initialize / load_parameters body; the MCMC-SAEM maximisation step also assigns parameters on model.state in place).",
-    "Ages are >= 0; identifiers are strings (IndividualParameters refuses anything else).",
+    "Ages are arbitrary finite reals (zero, negative, far backward extrapolation; reference times <= 0 as when time is counted from "
+    "onset or baseline); identifiers are strings (IndividualParameters refuses anything else).",
+    "A MultiIndex request may carry unused levels (index sliced out of a larger cohort by mask, position or table filter): only the "
+    "individuals present in the index are requested, whether or not the IndividualParameters know the others.",
 ]
 REQUIRED_CLASSES = {
     "nontrivial": 0.03,
@@ -73,7 +77,11 @@ REQUIRED_CLASSES = {
     "container:scalar": 0.005, "container:tuple": 0.02, "container:ndarray64": 0.02, "container:list": 0.05,
     "ages:unsorted": 0.2, "ages:repeat": 0.1, "ages:single": 0.05, "ages:far": 0.05,
     "mi:repeated-pair": 0.02, "sources": 0.3, "no-sources": 0.1, "ip:extra-individuals": 0.1,
-    "unshifted-at-tau": 0.5,
+    "unshifted-at-tau": 0.5, "unshifted-at-tau:non-positive": 0.02,
+    "ages:non-positive": 0.15, "ages:zero": 0.05, "tau:non-positive": 0.03,
+    "ages:non-positive:scalar": 30, "ages:non-positive:index": 0.05, "ages:non-positive:list": 0.02, "ages:non-positive:tuple": 50, "ages:non-positive:ndarray64": 50,
+    "multiindex:sliced-unused-levels": 0.05, "multiindex:sliced:ip-requested-only": 0.02, "multiindex:sliced:ip-whole-cohort": 0.02,
+    "mi:slice-mask": 0.01, "mi:slice-positional": 0.01, "mi:slice-frame": 0.01,
     "updates:load": 0.03, "updates:state": 0.03, "updates:trajectory-parameters-changed": 0.05, "updates:nontrivial": 0.01,
 }
 
@@ -244,6 +252,26 @@ def make_multiindex(case):
     times = [case["inds"][i]["ages"][j] for i, j in pairs]
     times = [int(a) for a in times] if as_int else [float(a) for a in times]
     how = case.get("mi_build", "tuples")
+    if how == "sliced":
+        # index of a larger cohort, then sliced down to the request: pandas keeps the other individuals (and ages) as unused levels
+        ins = {}
+        for pos, id_, age in case["mi_insert"]:
+            ins.setdefault(int(pos), []).append((id_, int(age) if as_int else float(age)))
+        big_ids, big_times, keep = [], [], []
+        for k in range(len(pairs) + 1):
+            for id_, age in ins.get(k, []):
+                big_ids.append(id_), big_times.append(age), keep.append(False)
+            if k < len(pairs):
+                big_ids.append(ids[k]), big_times.append(times[k]), keep.append(True)
+        keep = np.array(keep, dtype=bool)
+        sl = case.get("mi_slice", "mask")
+        if sl == "frame":  # table[table.SPLIT == 'test'].index
+            table = pd.DataFrame({"ID": big_ids, "TIME": big_times, "SPLIT": np.where(keep, "test", "train")}).set_index(["ID", "TIME"])
+            return table[table.SPLIT == "test"].index, pairs
+        big = pd.MultiIndex.from_arrays([big_ids, big_times], names=["ID", "TIME"])
+        if sl == "positional":
+            return big[[int(k) for k in np.flatnonzero(keep)]], pairs
+        return big[keep], pairs
     if how == "arrays":
         return pd.MultiIndex.from_arrays([ids, times], names=["ID", "TIME"]), pairs
     if how == "frame":
@@ -282,7 +310,8 @@ def judge(col: Collector, case, *, allow_excluded=False, sub="estimate", model_c
     request = case["request"]
     classes = [f"kind:{kind}", f"dim:{dim}", "sources" if sd else "no-sources", f"request:{request}",
                f"to_dataframe:{tdf}", f"ip-form:{case['ip_form']}", f"n-requested:{min(len(inds), 3)}{'+' if len(inds) > 3 else ''}"]
-    if case.get("extra_inds"):
+    requested_ids = {p["id"] for p in inds}
+    if any(i not in requested_ids for i in case["ip_order"]):
         classes.append("ip:extra-individuals")
     has_scalar = request == "dict" and any(p["container"] in SCALAR_CONTAINERS for p in inds)
     if not allow_excluded:
@@ -330,6 +359,11 @@ def judge(col: Collector, case, *, allow_excluded=False, sub="estimate", model_c
         ix, pairs = make_multiindex(case)
         req = ix
         classes.append("mi:build-" + case.get("mi_build", "tuples"))
+        if case.get("mi_build") == "sliced":
+            classes.append("mi:slice-" + case.get("mi_slice", "mask"))
+            if len(ix.levels[0]) > len(set(ix.get_level_values(0))):
+                classes.append("multiindex:sliced-unused-levels")
+                classes.append("multiindex:sliced:ip-" + ("whole-cohort" if any(i not in requested_ids for i in case["ip_order"]) else "requested-only"))
         if case.get("mi_int_time"):
             classes.append("mi:int-time")
         keys = [(case["inds"][i]["id"], case["inds"][i]["ages"][j]) for i, j in pairs]
@@ -383,6 +417,8 @@ def judge(col: Collector, case, *, allow_excluded=False, sub="estimate", model_c
         except Exception as e:
             col.fail(rsub, "unexpected-exception:trajectory:" + exc_bucket(e), rec, observed=repr(e), expected="1/(1+g)")
         classes.append("unshifted-at-tau")
+        if p["tau"] <= 0:
+            classes.append("unshifted-at-tau:non-positive")
 
     # ---- classes on ages
     for p in inds:
@@ -397,6 +433,13 @@ def judge(col: Collector, case, *, allow_excluded=False, sub="estimate", model_c
             classes.append("ages:far")
         if any(x == p["tau"] for x in a):
             classes.append("ages:at-tau")
+        if any(x <= 0 for x in a):
+            classes.append("ages:non-positive")
+            classes.append("ages:non-positive:" + ("index" if request == "multiindex" else ("scalar" if p["container"] in SCALAR_CONTAINERS else p["container"])))
+        if any(x == 0 for x in a):
+            classes.append("ages:zero")
+        if p["tau"] <= 0:
+            classes.append("tau:non-positive")
         if abs(p["xi"] - (case["params"].get("xi_mean", [0.0])[0])) > 2:
             classes.append("xi:extreme")
     classes = sorted(set(classes))
@@ -492,7 +535,9 @@ FEATURE_NAMES = {
 
 def _params(draw, kind, dim, sd, noise):
     f = gen.f32
-    p = dict(tau_mean=[draw(f(40, 90))], tau_std=[draw(f(1, 15))], xi_std=[draw(f(0.05, 1.5))])
+    # reference times are mostly ages (40-90) and sometimes counted from onset / baseline (around or below 0)
+    tau_mean = draw(f(-30, 5)) if draw(st.integers(0, 5)) == 0 else draw(f(40, 90))
+    p = dict(tau_mean=[tau_mean], tau_std=[draw(f(1, 15))], xi_std=[draw(f(0.05, 1.5))])
     n_noise = 1 if ((noise == "gaussian-scalar" and kind != "joint") or (kind == "joint" and (dim == 1 or sd == 0))) else dim
     p["noise_std"] = [draw(f(0.01, 0.5)) for _ in range(n_noise)]
     if kind in ("logistic", "joint"):
@@ -521,16 +566,20 @@ def _ages(draw, tau):
     n = 1 if mode == "single" else draw(st.integers(2, 4 if mode == "few" else 8))
     ages = []
     for _ in range(n):
-        c = draw(st.sampled_from(["near", "near", "near", "int", "tau", "far"] if mode != "far" else ["far", "far", "near"]))
+        c = draw(st.sampled_from(["near", "near", "near", "int", "tau", "far", "zero", "neg"] if mode != "far" else ["far", "far", "neg", "near"]))
         if c == "near":
             a = tau + draw(f(-40, 40))
         elif c == "int":
             a = float(round(tau + draw(f(-30, 30))))
         elif c == "tau":
             a = tau
+        elif c == "zero":
+            a = 0.0
+        elif c == "neg":
+            a = -draw(f(0, 10000))
         else:
             a = draw(f(0, 10000))
-        ages.append(r32(max(0.0, a)))
+        ages.append(r32(a) + 0.0)  # + 0.0: no negative zero
     if n >= 2 and draw(st.integers(0, 2)) == 0:  # a repeated age
         k = draw(st.integers(0, n - 1))
         ages.insert(draw(st.integers(0, n)), ages[k])
@@ -568,13 +617,14 @@ def case_strategy(draw, kinds=("logistic", "linear", "shared_speed_logistic", "j
     names = FEATURE_NAMES[draw(st.sampled_from(sorted(FEATURE_NAMES)))]
     params = _params(draw, kind, dim, sd, noise)
     n_req = draw(st.sampled_from([1, 2, 2, 3, 3, 4, 5]))
-    n_extra = draw(st.sampled_from([0, 0, 1, 2]))
+    request = draw(st.sampled_from(["dict", "multiindex"]))
+    mi_build = draw(st.sampled_from(["tuples", "arrays", "frame", "sliced", "sliced"])) if request == "multiindex" else None
+    n_extra = draw(st.sampled_from([1, 2, 3])) if mi_build == "sliced" else draw(st.sampled_from([0, 0, 1, 2]))
     id_kind = draw(st.sampled_from(["s", "digits", "zeros", "unicode", "words"]))
     all_ids = [str(gen.ID_ALPHABETS[id_kind](i)) for i in range(n_req + n_extra)]
     all_ids = list(draw(st.permutations(all_ids)))
     inds = [_person(draw, id_, params, sd) for id_ in all_ids[:n_req]]
     extra = [_person(draw, id_, params, sd) for id_ in all_ids[n_req:]]
-    request = draw(st.sampled_from(["dict", "multiindex"]))
     tdf = draw(st.sampled_from([None, True, False]))
     excluded = []
     if kind == "joint" and (tdf is True or (request == "multiindex" and tdf is None)):
@@ -603,8 +653,19 @@ def case_strategy(draw, kinds=("logistic", "linear", "shared_speed_logistic", "j
         total = sum(len(p["ages"]) for p in inds)
         how = draw(st.sampled_from(["grouped", "shuffled", "shuffled"]))
         case["mi_order"] = list(range(total)) if how == "grouped" else list(draw(st.permutations(list(range(total)))))
-        case["mi_build"] = draw(st.sampled_from(["tuples", "arrays", "frame"]))
+        case["mi_build"] = mi_build
         case["mi_int_time"] = all(float(a).is_integer() for p in inds for a in p["ages"]) and draw(st.booleans())
+        if mi_build == "sliced":
+            # rows of the not-requested individuals of the larger cohort, inserted at drawn positions of the request
+            ins = []
+            for q in extra:
+                for _ in range(draw(st.integers(1, 3))):
+                    a = float(round(q["tau"] + draw(gen.f32(-30, 30)))) if case["mi_int_time"] else r32(q["tau"] + draw(gen.f32(-30, 30)))
+                    ins.append([draw(st.integers(0, total)), q["id"], a])
+            case["mi_insert"] = ins
+            case["mi_slice"] = draw(st.sampled_from(["mask", "positional", "frame"]))
+            if draw(st.booleans()):  # the individual parameters hold only the requested individuals
+                case["ip_order"] = [i for i in case["ip_order"] if i in {p["id"] for p in inds}]
     return case
 
 
@@ -660,8 +721,8 @@ def grid_cases(kind):
         src = lambda k: [r32(((-1) ** (i + k)) * (0.5 + 0.75 * i)) for i in range(sd)]
         base = [
             dict(id="p-10", xi=r32(xi0 + 0.5), tau=r32(71.5), sources=src(0), ages=[82.0, 60.0, 75.0, 60.0]),
-            dict(id="p-02", xi=r32(xi0 - 1.25), tau=r32(64.0), sources=[0.0] * sd, ages=[64.0]),
-            dict(id="a", xi=r32(xi0 + 2.0), tau=r32(80.25), sources=src(1), ages=[90.0, 3000.0, 80.25]),
+            dict(id="p-02", xi=r32(xi0 - 1.25), tau=r32(-4.0), sources=[0.0] * sd, ages=[-4.0]),  # time counted from onset: tau <= 0
+            dict(id="a", xi=r32(xi0 + 2.0), tau=r32(80.25), sources=src(1), ages=[90.0, 3000.0, 80.25, -12.5, 0.0]),
         ]
         extra = [dict(id="b", xi=r32(xi0), tau=r32(70.0), sources=src(2))]
         feats = [f"ft {j}" for j in range(dim)][::-1]
@@ -679,21 +740,29 @@ def grid_cases(kind):
                     for p in base:
                         q = dict(p)
                         if c_multi in INT_CONTAINERS and p["id"] == "a":
-                            q["ages"] = [90.0, 3000.0, 80.0]
+                            q["ages"] = [90.0, 3000.0, 80.0, -12.0, 0.0]
                         q["container"] = c_single if len(p["ages"]) == 1 else c_multi
                         inds.append(q)
                     case["inds"] = inds
                     yield case
-                for build, order, int_time in itertools.product(("tuples", "arrays", "frame"), ("grouped", "interleaved"), (False, True)):
+                builds = ("tuples", "arrays", "frame", "sliced:mask:cohort", "sliced:positional:requested", "sliced:frame:requested", "sliced:mask:requested")
+                for build, order, int_time in itertools.product(builds, ("grouped", "interleaved"), (False, True)):
                     if ip_form == "list" and build != "tuples":
                         continue
-                    case = dict(common, ip_form=ip_form, request="multiindex", to_dataframe=tdf, mi_build=build, mi_int_time=int_time)
+                    case = dict(common, ip_form=ip_form, request="multiindex", to_dataframe=tdf, mi_build=build.split(":")[0], mi_int_time=int_time)
+                    if build.startswith("sliced"):
+                        _, case["mi_slice"], holder = build.split(":")
+                        case["mi_insert"] = [[0, "b", 70.0], [3, "b", 71.0], [3, "zz", 64.0], [10, "b", -1.0]]
+                        if holder == "requested":
+                            case["ip_order"] = ["a", "p-02", "p-10"]
+                        else:  # the individual parameters know every individual of the larger cohort
+                            case["mi_insert"] = [r for r in case["mi_insert"] if r[1] == "b"]
                     inds = [dict(p, container="index") for p in base]
                     if int_time:
-                        inds[2] = dict(inds[2], ages=[90.0, 3000.0, 80.0])
+                        inds[2] = dict(inds[2], ages=[90.0, 3000.0, 80.0, -12.0, 0.0])
                     case["inds"] = inds
                     total = sum(len(p["ages"]) for p in inds)
-                    case["mi_order"] = list(range(total)) if order == "grouped" else [(5 * k + 3) % total for k in range(total)]
+                    case["mi_order"] = list(range(total)) if order == "grouped" else [(3 * k + 1) % total for k in range(total)]  # total = 10
                     yield case
 
 
